@@ -9,5 +9,5 @@ import (
 func TestMain(m *testing.M) { hk.Main(m, "C14") }
 
 func TestS1(t *testing.T) {
-	hk.RunSub(t, hk.Sub[Plan]{Name: "s1/selectors", Quick: 1500, Thorough: 10000, Gen: Gen, Run: Run, Journal: true})
+	hk.RunSub(t, hk.Sub[Plan]{Name: "s1/selectors", Quick: 2500, Thorough: 10000, Gen: Gen, Run: Run, Journal: true})
 }
